@@ -71,7 +71,7 @@ type exec struct {
 
 	live    []int // delivery indices in flight, in delivery order
 	calls   map[int]*call
-	opIdx   int
+	opIdx   atomic.Int64
 	ad      adapter
 	queued  atomic.Int32
 	created atomic.Bool
@@ -263,6 +263,12 @@ func (e *exec) dividerV2() divider.Divider {
 	base := baseDivider(e.s.Div)
 	return func(prios []uint, dividend uint, dist map[uint]uint) {
 		e.onDivide(prios, dividend, dist, dist == nil)
+		if dividend > 4*e.s.H+64 && dist != nil && len(prios) > 0 {
+			// a dividend far above HandlersQuantity (already recorded as a contract violation)
+			// would make the custom dividers loop for ages: stay sum-preserving in O(1)
+			dist[prios[0]] += dividend
+			return
+		}
 		base(prios, dividend, dist)
 		e.maybeFault(prios, dividend, dist, true)
 	}
@@ -291,6 +297,10 @@ func (e *exec) dividerV1() v1.Divider {
 	return func(prios []uint, dividend uint, dist map[uint]uint) map[uint]uint {
 		nilMap := dist == nil
 		e.onDivide(prios, dividend, dist, nilMap)
+		if dividend > 4*e.s.H+64 && dist != nil && len(prios) > 0 {
+			dist[prios[0]] += dividend
+			return dist
+		}
 		out := base(prios, dividend, dist)
 		// v1 validates only the divisions made for a round (non-nil map)
 		e.maybeFault(prios, dividend, out, !nilMap)
@@ -349,14 +359,14 @@ func (in *input) readsHi() int { return int(in.wstart.Load()) - len(in.ch) }
 
 // delivered records one item handed out by the discipline. Caller holds e.mu.
 func (e *exec) deliveredLocked(it Item, tag uint, hasTag bool) int {
-	d := Delivery{It: it, Tag: tag, HasTag: hasTag, At: e.now(), AfterOp: e.opIdx}
+	d := Delivery{It: it, Tag: tag, HasTag: hasTag, At: e.now(), AfterOp: int(e.opIdx.Load())}
 	e.tr.Deliveries = append(e.tr.Deliveries, d)
 	di := len(e.tr.Deliveries) - 1
 	e.live = append(e.live, di)
 	if len(e.live) > e.tr.MaxInFlight {
 		e.tr.MaxInFlight = len(e.live)
 	}
-	if e.opIdx < len(e.s.Ops) {
+	if int(e.opIdx.Load()) < len(e.s.Ops) {
 		c := 0
 		for _, x := range e.live {
 			if e.tr.Deliveries[x].It.P == it.P {
@@ -368,7 +378,7 @@ func (e *exec) deliveredLocked(it Item, tag uint, hasTag bool) int {
 		}
 	}
 	if uint(len(e.live)) > e.s.H && e.tr.OverCommit == "" {
-		e.tr.OverCommit = fmt.Sprintf("%d items in flight (received and not released) after delivery #%d at %dns during op #%d, HandlersQuantity is %d", len(e.live), di, d.At, e.opIdx, e.s.H)
+		e.tr.OverCommit = fmt.Sprintf("%d items in flight (received and not released) after delivery #%d at %dns during op #%d, HandlersQuantity is %d", len(e.live), di, d.At, int(e.opIdx.Load()), e.s.H)
 	}
 	for _, in := range e.all {
 		if in.p == it.P && in.gen == it.G {
@@ -450,7 +460,7 @@ func (e *exec) markTerminatedLocked(how string) {
 	e.terminated = true
 	e.tr.Terminated = true
 	e.tr.TerminatedAt = e.now()
-	e.tr.TermOp = e.opIdx
+	e.tr.TermOp = int(e.opIdx.Load())
 	e.tr.TermHow = how
 	e.tr.TermInFlight = len(e.live)
 	e.tr.TermAllClosed = true
@@ -502,7 +512,7 @@ func (e *exec) drain() int {
 func (e *exec) snapshot(epilogue bool) {
 	e.mu.Lock()
 	defer e.mu.Unlock()
-	sn := Snap{Op: e.opIdx, At: e.now(), InFlight: map[uint]int{}, Pending: map[uint]int{}, AllClosed: true, Terminated: e.terminated, GStopAsked: e.gstopAsked, Epilogue: epilogue, Queued: int(e.queued.Load())}
+	sn := Snap{Op: int(e.opIdx.Load()), At: e.now(), InFlight: map[uint]int{}, Pending: map[uint]int{}, AllClosed: true, Terminated: e.terminated, GStopAsked: e.gstopAsked, Epilogue: epilogue, Queued: int(e.queued.Load())}
 	for _, di := range e.live {
 		d := e.tr.Deliveries[di]
 		p := d.It.P
@@ -725,24 +735,24 @@ func (e *exec) doOp(op Op) {
 		}
 		bubble.Wait()
 	case "F":
-		if len(op.Picks) == 0 || len(e.live) == 0 || e.terminated {
+		if len(op.Picks) == 0 || e.liveLen() == 0 || e.isTerminated() {
 			noop()
 			return
 		}
 		for _, pk := range op.Picks {
-			if len(e.live) == 0 {
+			if e.liveLen() == 0 {
 				break
 			}
 			e.releaseOne(abs(pk))
 			bubble.Wait()
 		}
 	case "FM":
-		if len(op.Picks) == 0 || len(e.live) == 0 || e.terminated {
+		if len(op.Picks) == 0 || e.liveLen() == 0 || e.isTerminated() {
 			noop()
 			return
 		}
 		for _, pk := range op.Picks {
-			if len(e.live) == 0 {
+			if e.liveLen() == 0 {
 				break
 			}
 			e.releaseOne(abs(pk))
@@ -774,7 +784,7 @@ func (e *exec) doOp(op Op) {
 		delete(e.removedSet, op.P)
 		e.inputs[op.P] = in
 		ev := len(e.tr.Inputs)
-		e.tr.Inputs = append(e.tr.Inputs, InputEvent{Kind: "add", P: op.P, Gen: in.gen, IssuedOp: e.opIdx})
+		e.tr.Inputs = append(e.tr.Inputs, InputEvent{Kind: "add", P: op.P, Gen: in.gen, IssuedOp: int(e.opIdx.Load())})
 		e.mu.Unlock()
 		e.helper(func() {
 			e.ad.addInput(in.ch, op.P)
@@ -797,7 +807,7 @@ func (e *exec) doOp(op Op) {
 		}
 		e.mu.Lock()
 		ev := len(e.tr.Inputs)
-		e.tr.Inputs = append(e.tr.Inputs, InputEvent{Kind: "remove", P: op.P, Gen: in.gen, IssuedOp: e.opIdx})
+		e.tr.Inputs = append(e.tr.Inputs, InputEvent{Kind: "remove", P: op.P, Gen: in.gen, IssuedOp: int(e.opIdx.Load())})
 		e.mu.Unlock()
 		e.helper(func() {
 			e.ad.removeInput(op.P)
@@ -826,6 +836,18 @@ func (e *exec) doOp(op Op) {
 	default:
 		noop()
 	}
+}
+
+func (e *exec) liveLen() int {
+	e.mu.Lock()
+	defer e.mu.Unlock()
+	return len(e.live)
+}
+
+func (e *exec) isTerminated() bool {
+	e.mu.Lock()
+	defer e.mu.Unlock()
+	return e.terminated
 }
 
 // ctlPending: an AddInput/RemoveInput call for this priority has not returned yet. Two
@@ -870,7 +892,7 @@ func (e *exec) stop(kind string) {
 	e.mu.Lock()
 	e.stopIssued = true
 	e.tr.StopIssuedAt = e.now()
-	e.tr.StopIssuedOp = e.opIdx
+	e.tr.StopIssuedOp = int(e.opIdx.Load())
 	e.tr.StopMode = map[string]string{"S": "stop", "K": "cancel"}[kind]
 	e.tr.StopInFlight = len(e.live)
 	if e.ad.outLen != nil && e.s.OutCap >= 0 {
@@ -902,7 +924,10 @@ func (e *exec) stop(kind string) {
 			break
 		}
 	}
-	if !e.tr.StopReturned {
+	e.mu.Lock()
+	returned := e.tr.StopReturned
+	e.mu.Unlock()
+	if !returned {
 		return
 	}
 	// after Stop returned nothing more may be written to the output: offer more data, wait, look
@@ -928,7 +953,7 @@ func (e *exec) stop(kind string) {
 
 // epilogue: orderly end of a run that was not stopped.
 func (e *exec) epilogue() {
-	e.opIdx = len(e.s.Ops)
+	e.opIdx.Store(int64(len(e.s.Ops)))
 	for _, in := range e.inputs {
 		if !in.closeReq && !in.removed {
 			in.closeReq = true
@@ -943,14 +968,14 @@ func (e *exec) epilogue() {
 	for round := 0; round < 100000; round++ {
 		got := e.drain()
 		e.snapshot(true)
-		if e.terminated {
+		if e.isTerminated() {
 			return
 		}
-		if len(e.live) > 0 {
+		if n := e.liveLen(); n > 0 {
 			stuck = 0
 			pos := 0
 			if e.s.EpiNewest {
-				pos = len(e.live) - 1
+				pos = n - 1
 			}
 			e.releaseOne(pos)
 			bubble.Wait()
@@ -1060,7 +1085,7 @@ func Execute(t *testing.T, s Script, leakScan bool) Trace {
 			return
 		}
 		for i, op := range s.Ops {
-			e.opIdx = i
+			e.opIdx.Store(int64(i))
 			e.doOp(op)
 			tr.OpsDone++
 			if e.stopIssued {
